@@ -29,6 +29,7 @@ def run(ctx):
     # and the cleartext framework signs and verifies one derived form whose trim set is {SP, TAB}
     from rules import c11, c16
     c11.twins(ctx, P)
+    c11.salt_tables(ctx, P)
     c11.hashed_subpackets_all_fed(ctx, P)
     c16.same_form(ctx, P)
     c16.trim_set(ctx, P)
